@@ -19,7 +19,7 @@ START = b'\x1a\xcf\xfc\x1d'
 END = b'\xd1\xcf\xfc\xa1'
 
 # thread outcome codes (shared with Corr/AcmdCorr.v)
-T_DONE, T_PARKED, T_DIED = 0, 1, 2
+T_DONE, T_PARKED, T_DIED, T_SKIPPED = 0, 1, 2, 3
 # per-byte outcome codes of System.parse
 O_FALSE, O_TRUE, O_VALUEERROR, O_EXCEPTION, O_OTHER = 0, 1, 2, 3, 4
 
@@ -34,8 +34,8 @@ def _park(_seconds=0):
 
 class SyncThread:
     """stand-in for threading.Thread inside simulators.acu"""
-    events = []      # (owner name, method name, outcome code, exception class or '')
-    intercept = None  # optional callable(owner, name, args) -> True when it handled the call
+    events = []        # (subsystem id, command id, command bytes, outcome code, exception class)
+    skip_ps = True     # do not execute the pointing handlers that read the wall clock / scipy
 
     def __init__(self, group=None, target=None, name=None, args=(), kwargs=None, daemon=None):
         self.target = target
@@ -47,15 +47,23 @@ class SyncThread:
         name = getattr(self.target, '__name__', repr(self.target))
         if name == '_update_loop':
             return
-        owner = getattr(getattr(self.target, '__self__', None), 'name', None) or \
-            type(getattr(self.target, '__self__', None)).__name__
+        owner = getattr(self.target, '__self__', None)
+        oname = getattr(owner, 'name', None)
+        sub = {'azimuth': 1, 'elevation': 2}.get(oname, 5 if type(owner).__name__ == 'PointingStatus' else -1)
+        cid = {'_mode_command': 1, '_parameter_command': 2,
+               '_program_track_parameter_command': 4}.get(name, -1)
+        cmd = self.args[0].encode('latin-1') if self.args and isinstance(self.args[0], str) else b''
+        if sub == 5 and SyncThread.skip_ps and (
+                cid == 4 or (cid == 2 and len(cmd) >= 10 and cmd[8] in (50, 51) and cmd[9] == 0)):
+            SyncThread.events.append((sub, cid, cmd, T_SKIPPED, ''))
+            return
         try:
             self.target(*self.args, **self.kwargs)
-            SyncThread.events.append((owner, name, T_DONE, ''))
+            SyncThread.events.append((sub, cid, cmd, T_DONE, ''))
         except Parked:
-            SyncThread.events.append((owner, name, T_PARKED, ''))
+            SyncThread.events.append((sub, cid, cmd, T_PARKED, ''))
         except Exception as ex:   # the real thread would die here (traceback on stderr)
-            SyncThread.events.append((owner, name, T_DIED, type(ex).__name__))
+            SyncThread.events.append((sub, cid, cmd, T_DIED, type(ex).__name__))
 
     def join(self, timeout=None):
         return None
@@ -144,7 +152,7 @@ def frame(counter, cmds, count=None, length=None, start=START, end=END):
     body = b''.join(cmds)
     n = len(cmds) if count is None else count
     ln = 20 + len(body) if length is None else length
-    return start + u32(ln) + u32(counter) + struct.pack('<i', n) + body + end
+    return start + u32(ln) + u32(counter) + u32(n) + body + end
 
 
 # ---------------------------------------------------------------------------
@@ -187,18 +195,61 @@ def ps_snapshot(ps):
             ps.actPtTimeOffset]
 
 
-def set_axis(ax, axis_state=None, p_Ist=None, stowed=None, p_Offset=None, p_Soll=None):
-    """initial configuration of a case, through the class's own setters"""
-    if axis_state is not None:
-        ax.axis_state = axis_state
-    if p_Ist is not None:
-        ax.p_Ist = p_Ist
-    if p_Soll is not None:
-        ax.p_Soll = p_Soll
-    if p_Offset is not None:
-        ax.p_Offset = p_Offset
-    if stowed is not None:
-        if stowed:
-            ax._stow(0)
+def poke(system, which, field, value):
+    """the harness writes one attribute through the class's own setter
+    (which: 0 AZ | 1 EL; field: 0 axis_state | 1 p_Ist | 2 p_Offset)"""
+    ax = system.AZ if which == 0 else system.EL
+    if field == 0:
+        ax.axis_state = value
+    elif field == 1:
+        ax.p_Ist = value
+    else:
+        ax.p_Offset = value
+
+
+def tick(system):
+    system.AZ.update_status()
+    system.EL.update_status()
+
+
+# ---------------------------------------------------------------------------
+# histories: ('feed', bytes) | ('poke', which, field, value) | ('tick',)
+
+def run_history(A, ops):
+    """execute a history on a fresh System; returns the list of observation records"""
+    s = new_system(A)
+    rec = []
+    for op in ops:
+        if op[0] == 'feed':
+            outs = feed(s, op[1])
+            ev = take_events()
+            rec.append(dict(op='feed', bs=bytes(op[1]), outs=outs, threads=ev,
+                            az=axis_snapshot(s.AZ), el=axis_snapshot(s.EL), ps=ps_snapshot(s.PS),
+                            buflen=len(s.msg), cnt=-1 if s.cmd_counter is None else s.cmd_counter))
+        elif op[0] == 'poke':
+            poke(s, op[1], op[2], op[3])
+            rec.append(dict(op='poke', which=op[1], field=op[2], value=op[3],
+                            az=axis_snapshot(s.AZ), el=axis_snapshot(s.EL)))
         else:
-            ax._unstow(0)
+            tick(s)
+            rec.append(dict(op='tick', az=axis_snapshot(s.AZ), el=axis_snapshot(s.EL)))
+    return rec
+
+
+def coq_case(rec):
+    """observation records -> Coq term of type AcmdCorr.acase"""
+    from vlib.core import zlit, zlist
+    terms = []
+    for r in rec:
+        if r['op'] == 'feed':
+            th = '[' + '; '.join('(%s, %s, %s, %d)' % (zlit(a), zlit(b), zlist(c), d)
+                                 for a, b, c, d, _ in r['threads']) + ']'
+            terms.append('OpFeed %s %s %s %s %s %s %d %s'
+                         % (zlist(r['bs']), zlist(r['outs']), th, zlist(r['az']), zlist(r['el']),
+                            zlist(r['ps']), r['buflen'], zlit(r['cnt'])))
+        elif r['op'] == 'poke':
+            terms.append('OpPoke %d %d %s %s %s' % (r['which'], r['field'], zlit(r['value']),
+                                                    zlist(r['az']), zlist(r['el'])))
+        else:
+            terms.append('OpTick %s %s' % (zlist(r['az']), zlist(r['el'])))
+    return '[' + ';\n  '.join(terms) + ']'
